@@ -251,6 +251,10 @@ impl<'a, F: Float, K: 'a + Permutable<F>> SolverState<'a, F, K> {
         let old_alpha_i = self.alpha[i].val();
         let old_alpha_j = self.alpha[j].val();
 
+        // status before the step, needed to maintain the gradient bar below
+        let ui = self.alpha[i].reached_upper();
+        let uj = self.alpha[j].reached_upper();
+
         if self.targets[i] != self.targets[j] {
             let mut quad_coef = self.kernel.self_distance(i)
                 + self.kernel.self_distance(j)
@@ -342,9 +346,6 @@ impl<'a, F: Float, K: 'a + Permutable<F>> SolverState<'a, F, K> {
         }
 
         // update alpha status and gradient bar
-        let ui = self.alpha[i].reached_upper();
-        let uj = self.alpha[j].reached_upper();
-
         self.alpha[i] = Alpha::from(self.alpha[i].val(), self.bound(i));
         self.alpha[j] = Alpha::from(self.alpha[j].val(), self.bound(j));
 
